@@ -480,7 +480,7 @@ pub fn generate(thorough: bool, rng: &mut Rng, ops: &mut Vec<String>, stats: &mu
     // two handles strictly alternating: every operation of the cached handle is preceded by a change made through the
     // uncached handle (a new file, a removal, an overwrite with another size) of a type the cache keeps, so the cache
     // is stale between every pair of cached operations
-    let n_alt = if thorough { 1500 } else { 150 };
+    let n_alt = if thorough { 6000 } else { 150 };
     for _ in 0..n_alt {
         let n = if thorough { rng.range(4, 30) } else { rng.range(3, 14) } as usize;
         let mut live: Vec<(u8, String, usize)> = Vec::new();
@@ -575,7 +575,7 @@ pub fn generate(thorough: bool, rng: &mut Rng, ops: &mut Vec<String>, stats: &mu
         steps.push("b".into());
         ops.push(format!("c19 hist {}", steps.join(";")));
     }
-    let n_hist = if thorough { 4000 } else { 500 };
+    let n_hist = if thorough { 20000 } else { 500 };
     for _ in 0..n_hist {
         let n = if thorough { rng.range(4, 45) } else { rng.range(3, 25) } as usize;
         let mut pool: Vec<String> = Vec::new();
@@ -679,7 +679,28 @@ pub fn generate(thorough: bool, rng: &mut Rng, ops: &mut Vec<String>, stats: &mu
                     let (t2, id, len) = known(rng, &written, &mut pool, t);
                     let dir = dirs[t2 as usize];
                     let proper = format!("{dir}/{}/{id}", &id[..2]);
-                    match rng.below(16) {
+                    match rng.below(18) {
+                        16 => {
+                            // a regular FILE where a parent directory of the entry path belongs (`<type>/<xx>`, rarely `<type>`):
+                            // nothing below can be cached any more (fails when the directory already exists)
+                            if rng.chance(5, 6) {
+                                stats.hit("plant.file-at-parent");
+                                steps.push(format!("s,{dir}/{},0102", &id[..2]));
+                            } else {
+                                stats.hit("plant.file-at-type-dir");
+                                steps.push(format!("s,{dir},01"));
+                            }
+                        }
+                        17 => {
+                            // ... or a dangling symlink
+                            if rng.chance(5, 6) {
+                                stats.hit("plant.link-at-parent");
+                                steps.push(format!("k,{dir}/{}", &id[..2]));
+                            } else {
+                                stats.hit("plant.link-at-type-dir");
+                                steps.push(format!("k,{dir}"));
+                            }
+                        }
                         13 => {
                             // a DANGLING SYMLINK at the proper entry path of a known id
                             stats.hit("plant.link-at-entry");
@@ -796,7 +817,7 @@ pub fn generate(thorough: bool, rng: &mut Rng, ops: &mut Vec<String>, stats: &mu
         stats.hit(format!("hist.len.{}", Stats::bucket(steps.len())));
         ops.push(format!("c19 hist {}", steps.join(";")));
     }
-    let n_repo = if thorough { 60 } else { 6 };
+    let n_repo = if thorough { 200 } else { 6 };
     for _ in 0..n_repo {
         stats.hit("repo-level");
         ops.push(format!("c19 repo {}", rng.below(1 << 32)));
